@@ -192,8 +192,12 @@ func enumCases(prop string) []*Case {
 	switch prop {
 	case "C14":
 		return enumC14()
-	case "C06", "C13":
-		return enumBatchFaults(prop)
+	case "C06":
+		return append(enumBatchFaults(prop), enumBadSubsets()...)
+	case "C13":
+		return append(enumBatchFaults(prop), enumShapes()...)
+	case "C02":
+		return enumSignLengths()
 	}
 	return nil
 }
